@@ -75,7 +75,11 @@ def _sym_place(f, pl, depth):
     # captured variable of a closure: (*_1).i
     if l == 1 and proj and f.key.split("::")[-1].startswith("{closure") and isinstance(proj[0], str) and proj[0].startswith("."):
         base = ("env", int(proj[0][1:].split(":")[0]))
-        return base if len(proj) == 1 else ("?", "env-proj")
+        if len(proj) == 1:
+            return base
+        if len(proj) == 2 and isinstance(proj[1], str) and proj[1].startswith("."):
+            return ("field", base, int(proj[1][1:].split(":")[0]))      # a field of a captured struct reference
+        return ("?", "env-proj")
     if 1 <= l <= f.argc and not _whole_defs(f, l):
         base = ("arg", l)
         if not proj:
@@ -275,6 +279,9 @@ def r2_transpose(ctx, p=None, cfg=None):
     if not (full and dep):
         f2, d2 = _transpose_iter_form(p, cfs)
         full, dep = full or f2, dep or d2
+    if not (full and dep):
+        f3, d3 = _transpose_foreach_form(p, cfs)
+        full, dep = full or f3, dep or d3
     ctx.ob("R2", "transpose:every-entry-written", full, "every row gets entry j written for j in 0..N" if full else
            "the closure does not write entry j of the row for every j in 0..N (uninitialised entries)", f)
     ctx.ob("R2", "transpose:source-index-depends-on-row-column-and-row-count", dep,
@@ -318,6 +325,57 @@ def _transpose_iter_form(p, cfs):
                         # row index: the outer closure parameter; column: this loop's item; row count: captured
                         if 2 in isl["args"] and (isl["locals"] & items) and any(pl[0] == 1 for pl in isl["places"]):
                             dep = True
+    return full, dep
+
+
+def _transpose_foreach_form(p, cfs):
+    """`row.iter_mut().enumerate().for_each(|(j, cell)| *cell = source[i + j * row_count])` inside the per-row closure."""
+    from ..patterns import upvar_origins, arg_slice
+    full, dep = False, False
+    for co in cfs:
+        for bi, t in co.calls():
+            if (callee_of(t) or {}).get("name") != "for_each" or co.is_cleanup(bi) or len(t["a"]) != 2:
+                continue
+            recv = arg_slice(co, t, 0)
+            names = {(callee_of(co.term(b)) or {}).get("name") for b in recv["calls"]}
+            if not {"iter_mut", "enumerate"} <= names or names & {"skip", "take", "step_by", "filter", "rev", "skip_while", "take_while"}:
+                continue
+            if 2 not in recv["args"] and not any(pl[0] == 2 for pl in recv["places"]):
+                continue
+            for ck in arg_slice(co, t, 1)["closures"]:
+                ci = p.funcs.get(ck)
+                if ci is None:
+                    continue
+                for b in ci.blocks:
+                    for s in b["s"]:
+                        if b.get("cleanup") or s["k"] != "assign" or len(s["p"]) < 2 or s["p"][-1] != "*":
+                            continue
+                        tgt = ci.backward_slice([s["p"][0]], at=s["_pos"])
+                        if 2 not in tgt["args"] and s["p"][0] != 2 and not any(pl[0] == 2 for pl in tgt["places"]):
+                            continue
+                        full = True
+                        vs = ci.slice_of_operand(s["rv"][1], at=s["_pos"]) if s["rv"][0] == "use" and op_local(s["rv"][1]) is not None else None
+                        if not vs:
+                            continue
+                        idxs = [int(e[2:-1]) for pl in vs["places"] for e in pl[1:] if isinstance(e, str) and e.startswith("[_")]
+                        for bb in vs["calls"]:
+                            tt = ci.term(bb)
+                            if (callee_of(tt) or {}).get("name") in ("index", "get_unchecked") and len(tt["a"]) == 2 and op_local(tt["a"][1]) is not None:
+                                idxs.append(op_local(tt["a"][1]))
+                        for ix in idxs:
+                            isl = ci.backward_slice([ix], at=s["_pos"])
+                            from_j = 2 in isl["args"] or any(pl[0] == 2 for pl in isl["places"])
+                            from_row, from_rc = False, False
+                            for pf, locs in upvar_origins(p, ci, isl):
+                                if pf.key == co.key:
+                                    for l in locs:
+                                        bs = co.backward_slice([l])
+                                        if 2 in bs["args"] or l == 2:
+                                            from_row = True
+                                        if any(pl[0] == 1 for pl in bs["places"]) or l == 1:
+                                            from_rc = True
+                            if from_j and from_row and from_rc:
+                                dep = True
     return full, dep
 
 
@@ -378,7 +436,7 @@ def _r3_inversion_window(ctx, cf):
 
 def r4_zero_skipping(ctx, p=None, cfg=None):
     p = p or ctx.p
-    f = p.fn(MU + "serial_batch_inversion", inline=False)
+    f = p.fn(MU + "serial_batch_inversion")      # private predicates wrapping the zero test are spliced
     # tests against ZERO
     tests = []
     for bi, t in f.calls():
